@@ -26,7 +26,10 @@ ASSUME = [
     "to the layer above that happens outside the flush lock, _in_handshake, profile.write_config, thread start "
     "and script events; the window at handshake completion (frames queued during the handshake and flushed by "
     "the worker while the network thread receives the next frame) is searched with one / two preemptions at "
-    "every scheduling point after the state became transport",
+    "every scheduling point after the state became transport; a try-lock / timed acquire / locked() probe of the "
+    "flush lock is a scheduling point with a recorded outcome ('busy' is unknown to the model: tie broken, "
+    "line-level escalation inside YowNoiseLayer's flush / receive / state-change code); at quiescence the "
+    "segment queue must be empty",
     "presented payload: the model's auth events carry the configuration in force when they are emitted "
     "(account, passive flag, attribute tuple as opaque codes); the responder decrypts the ClientPayload of "
     "every connection; per connection it is compared with the model's prediction for that login (final "
@@ -172,6 +175,8 @@ class Checker(object):
         self.kinds = {}
         self.mismatch = 0
         self.finding_seen = 0
+        self.unknown_ops = 0
+        self.classified = 0
         self.nocase = 0
 
     @staticmethod
@@ -186,6 +191,7 @@ class Checker(object):
         self.kinds[kind] = self.kinds.get(kind, 0) + 1
         obs = R.run_scheduled(ctx.scratch, name or ("c%d" % self.n), scn, chooser, random.Random(chunk_seed))
         case = {"mode": "scheduled", "scenario": scn_json(scn), "schedule": obs["trace"], "chunk_seed": chunk_seed}
+        self.unknown_ops += len(obs.get("unknown_ops", ()))
         bad = self.judge(scn, obs, case, record=record)
         self.distinct.add((json.dumps(scn_json(scn), sort_keys=True), tuple(obs["trace"])))
         return obs, bad
@@ -293,8 +299,36 @@ class Checker(object):
                         break
         # ---- property oracles directly on the implementation
         for name, extra in self.oracle_fail_names(scn, obs):
+            if name in ("oracle:frames_in_order_once", "oracle:queue_empty_at_quiescence") and record \
+                    and not finding_hist and self.classified < 3 and scn.get("idle_from") is None:
+                extra = dict(extra)
+                extra["lost_or_late"] = self.classify_loss(scn, obs, case.get("chunk_seed", 7))
             viol(name, extra)
         return failed
+
+    def classify_loss(self, scn, obs, chunk_seed):
+        """frames missing at quiescence: same scenario and schedule plus ONE more server frame long after
+        (when every worker has ended) - does it bring the stranded frames up (late) or not (lost)?"""
+        plan = login_plan(scn)
+        if len(plan) != 1 or not plan[0]["ok"]:
+            return None
+        self.classified += 1
+        s2 = dict(scn)
+        s2["script"] = list(scn["script"]) + [("data", 99)]
+        s2["hold"] = list(scn.get("hold") or [False] * len(scn["script"])) + [False]
+        s2["idle_from"] = len(scn["script"])
+        try:
+            o2 = R.run_scheduled(self.ctx.scratch, "classify%d" % self.classified, s2, fixed_chooser(obs["trace"]),
+                                 random.Random(chunk_seed))
+        except Exception as e:
+            return "not classified: %r" % (e,)
+        ups = [g[1] for g in obs["top"] if g[0] == "up"]
+        ups2 = [g[1] for g in o2["top"] if g[0] == "up"]
+        exp = ["s%d" % i for i in plan[0]["data"]] + ["s99"]
+        verdict = "LATE: the stranded frame(s) stay in _incoming_segments_queue until another server frame arrives " \
+                  "(for ever if none does)" if ups2 == exp else \
+                  "LOST or reordered even after a later frame"
+        return {"verdict": verdict, "without_later_frame": ups, "with_one_later_frame": ups2, "sent_then": exp}
 
     @staticmethod
     def model_status(summ):
@@ -345,6 +379,12 @@ class Checker(object):
                 out.append(("oracle:rs_written_iff_changed", {"observed_writes": nper, "expected_keys": exp_writes}))
             if len(plan) > 1 and obs["disk_rs"] != exp_disk:
                 out.append(("oracle:rs_persisted", {"observed_profile_key": obs["disk_rs"], "expected": exp_disk}))
+        if all_ok and answered and all(v == "done" for v in st.values()) and obs["inq_left"]:
+            # quiescence: every thread has ended, nothing can move any more, yet segments are still queued
+            out.append(("oracle:queue_empty_at_quiescence",
+                        {"observed_queue": obs["inq_left"], "delivered": ups, "sent": exp_ups,
+                         "expected": "_incoming_segments_queue empty when all threads are idle: every server frame "
+                                     "sent after the hello has been handed upward exactly once, in order"}))
         if not obs["written"].startswith(obs["expected_prologue"]):
             out.append(("oracle:prologue", {"observed": obs["written"][:40].hex(), "expected": obs["expected_prologue"].hex()}))
         # the payload the server decrypted on connection i == the configuration in force when auth event i was emitted
@@ -557,6 +597,28 @@ def preempt_search(chk, scn, kind, budget, bound=2):
     return runs[0], False
 
 
+COMPLETION_SHAPES = ((0, 1), (1, 0), (1, 1), (2, 0), (2, 1), (3, 0))
+
+
+def escalate(chk, quick, why):
+    """Line-level escalation, started when a run showed an operation the model has no step for (a try-lock
+    found busy, a locked() probe) or the trace replay broke, and no concrete failing schedule is known yet:
+    the 'server frames arrive around handshake completion' scenarios - all three login variants, 1..3 frames
+    right behind the server hello / at completion, NO further frame afterwards (a later frame would flush a
+    stranded one and hide the loss) - with a scheduling point at every line of YowNoiseLayer's flush / receive /
+    state-change code, <= 1 then <= 2 preemptions.  Stops at the first concrete failing schedule."""
+    res = {"because": why, "shapes": {}}
+    for v in ("XX", "IK", "FB"):
+        for e, l in COMPLETION_SHAPES:
+            scn = window_scn(v, e, l)
+            scn["line_level"] = True
+            n, stopped = preempt_search(chk, scn, "escalated-line", 120 if quick else 1500, 2)
+            res["shapes"]["%s/%d+%d" % (v, e, l)] = {"schedules": n, "stopped_at_violation": stopped}
+            if stopped:
+                return res
+    return res
+
+
 def explore(chk, scn, limit, kind, chunk_seed=7):
     """stateless DFS over ALL schedules of the scenario at the scheduler's granularity"""
     prefix, count, complete = [], 0, True
@@ -702,8 +764,12 @@ def run(ctx):
     #     trace replay has broken (unknown operation order): what is searched for is a schedule whose delivered
     #     frame sequence is out of order / duplicated / incomplete.
     win = {}
-    wshapes = [("IK", 1, 1, 60, 2), ("XX", 1, 1, 110, 2), ("FB", 1, 1, 110, 2), ("IK", 2, 2, 40, 1), ("IK", 3, 1, 40, 1)] \
-        if quick else [(v, e, l, 1500, 2) for v in ("IK", "XX", "FB") for e in (1, 2, 3) for l in (1, 2)]
+    #     Shapes e+l: e frames pushed behind the hello, l frames once the state is transport; the LAST frame is
+    #     followed by nothing, so a frame stranded in the queue at quiescence is seen as a loss (e+0 for XX/FB: the
+    #     frames become available with the client finish = exactly at completion).
+    wshapes = [("IK", 1, 1, 60, 2), ("XX", 1, 1, 110, 2), ("FB", 1, 1, 110, 2), ("IK", 2, 2, 40, 1), ("IK", 3, 1, 40, 1),
+               ("XX", 1, 0, 60, 2), ("FB", 1, 0, 60, 2), ("IK", 0, 1, 40, 2), ("XX", 2, 0, 40, 1), ("FB", 3, 0, 40, 1)] \
+        if quick else [(v, e, l, 1500, 2) for v in ("IK", "XX", "FB") for e in (0, 1, 2, 3) for l in (0, 1, 2) if e + l]
     for v, e, l, budget, bound in wshapes:
         if any(x["found_input"] for x in ctx.violations):
             break
@@ -720,6 +786,28 @@ def run(ctx):
             pct_chooser(random.Random(rng.random()), depth=rng.randint(1, 3), horizon=80)
         chk.run_case(scn, chooser, rng.randrange(1 << 30), "window-random")
     ctx.coverage["handshake_completion_window"] = win
+    # 1c. line-level scheduling points inside the noise layer's flush / receive / state-change code: always a small
+    #     pass (keeps the machinery and its correspondence alive), the full escalation when the model does not
+    #     know an observed operation or the replay broke and no concrete failing schedule is known yet.
+    lines = {}
+    for v, e, l in ((("XX", 1, 0), ("IK", 0, 1)) if quick else (("XX", 1, 0), ("IK", 0, 1), ("FB", 1, 1), ("IK", 1, 1))):
+        if any(x["found_input"] for x in ctx.violations):
+            break
+        scn = window_scn(v, e, l)
+        scn["line_level"] = True
+        n, stopped = preempt_search(chk, scn, "line-level", 60 if quick else 800, 1 if quick else 2)
+        lines["%s/%d+%d" % (v, e, l)] = {"schedules": n, "stopped_at_violation": stopped}
+    ctx.coverage["line_level"] = lines
+    esc = None
+
+    def maybe_escalate():
+        if any(x["found_input"] for x in ctx.violations):
+            return None
+        if chk.unknown_ops or chk.mismatch:
+            return escalate(chk, quick, "operations unknown to the model: %d, broken replays: %d"
+                            % (chk.unknown_ops, chk.mismatch))
+        return None
+    esc = maybe_escalate()
 
     # 2. exhaustive enumeration of every schedule for small scenarios
     exh = {}
@@ -809,6 +897,10 @@ def run(ctx):
         case = {"mode": "soak", "scenario": scn_json(scn), "seed": seed}
         soak_judge(ctx, scn, res, case)
 
+    if esc is None:
+        esc = maybe_escalate()
+    ctx.coverage["escalation"] = esc
+    ctx.coverage["unknown_operations_seen"] = chk.unknown_ops
     if model is not None:
         model.close()
         ctx.ties["correspondence"] = "ok" if chk.mismatch == 0 else "broken"
